@@ -78,11 +78,15 @@ class BitsView(BackedView, ColSequence):
         if type(k) == slice:
             i = 0 if k.start is None else k.start
             end = length if k.stop is None else k.stop
-            for item in v:
+            # Check everything first: a failing slice-set must not leave a partial write behind.
+            items = list(v)
+            if i + len(items) != end:
+                raise Exception("failed to do full slice-set, the number of values does not match the slice")
+            if i < 0 or end > length:
+                raise IndexError
+            for item in items:
                 self.set(i, item)
                 i += 1
-            if i != end:
-                raise Exception("failed to do full slice-set, not enough values")
         else:
             self.set(k, v)
 
